@@ -105,6 +105,12 @@ func (e *Engine) verifyFunction(c *Contract, init *State) (res *FuncResult) {
 			}
 		}
 		res.Obls = e.obls
+		for _, o := range e.obls {
+			o.inputs = e.inputs
+			if o.contract == nil {
+				o.contract = c
+			}
+		}
 		res.Axioms = e.axioms
 		res.Assumes = e.assumes
 		res.Notes = e.notes
@@ -133,12 +139,22 @@ func (e *Engine) verifyFunction(c *Contract, init *State) (res *FuncResult) {
 		bindings = append(bindings, e.inputValue(st, fv.Type(), "fv:"+fv.Name()))
 	}
 	entry := st.clone()
+	e.inputs = nil
+	for i, p := range fn.Params {
+		n := e.describeInput(entry, p.Type(), args[i], 0)
+		n.Name = p.Name()
+		e.inputs = append(e.inputs, n)
+	}
 	// modifies set and frame obligations
 	e.frameOn = c.FrameOn
 	e.frameProps = c.Frame
 	e.modLocs = nil
 	for _, cl := range c.Modifies {
-		for _, mt := range e.evalModifies(nil, cl, args, st, True) {
+		margs := args
+		if len(c.captures) > 0 {
+			margs = append(append([]*Term{}, args...), e.captureVals(c, fn, bindings, st)...)
+		}
+		for _, mt := range e.evalModifies(nil, cl, margs, st, True) {
 			switch mt.kind {
 			case "loc":
 				e.modLocs = append(e.modLocs, modLoc{loc: mt.loc})
@@ -147,11 +163,18 @@ func (e *Engine) verifyFunction(c *Contract, init *State) (res *FuncResult) {
 			}
 		}
 	}
+	cargs := args
+	if len(c.captures) > 0 {
+		cargs = append(append([]*Term{}, args...), e.captureVals(c, fn, bindings, st)...)
+	}
 	for _, cl := range c.Requires {
-		g := e.evalClause(nil, cl, args, nil, st, entry, True)
+		g := e.evalClause(nil, cl, cargs, nil, st, entry, True)
 		e.assume(True, g)
 	}
 	r, out, pcOut := e.execFunction(fn, args, bindings, st, True, nil, "", nil, false)
+	if len(c.captures) > 0 {
+		args = append(append([]*Term{}, args...), e.captureVals(c, fn, bindings, out)...)
+	}
 	var resArgs []*Term
 	if r != nil {
 		if r.Op == "tuple" {
